@@ -31,39 +31,39 @@ CHECKS = {
    note="Trusted: github.com/golang/snappy decoder, documented 6-byte header, simulated nodes' stores. Values starting with the header are excluded as the statement says.",
    ref="DESIGN.md section 4 C13"),
  "C18": dict(level="exploration", technique="cursor codec round-trip oracle + iteration monitor over simulated nodes with scripted cursor sequences (termination bound, key coverage, per-node visit log, argument pass-through), child-death detection",
-   text="parse(gen(i,c))==(i,c) and monotonicity for boundary and PRNG pairs (c < 2^48 incl. >= 2^47); full iterations from cursor 0 over 1-12 nodes with arbitrary scripted node cursors must terminate within sum(script lengths)+2 calls, return exactly the stored keys, visit each node's script once in address order with MATCH/COUNT/TYPE bytes unchanged; cursors past the last node give [0,[]], malformed cursors one error, proxy stays alive.",
+   text="parse(gen(i,c))==(i,c) and monotonicity for boundary and PRNG pairs (c < 2^48 incl. >= 2^47); full iterations from cursor 0 over 1-12 nodes with arbitrary scripted node cursors must terminate within sum(script lengths)+2 calls, return exactly the stored keys, visit each node's script once in address order with MATCH/COUNT/TYPE bytes unchanged; cursors past the last node give [0,[]], malformed cursors one error, proxy stays alive; a sixth of the iterations run on a race-instrumented proxy (reports scoped to request.go / codec.go / session.go / handler.go / resp.go).",
    note="Trusted: scripted SCAN handlers of the simulated nodes. Node indices >= 32768 are outside the workload (need 32768 seed hosts).",
    ref="DESIGN.md section 4 C18"),
  "C20": dict(level="exploration", technique="conservation equations over the public stats store at detected quiescence (nodes idle + two identical dumps), gauge range sampled during runs; fixed fault scenario list x PRNG parameters",
-   text="After each scenario (normal/multi-key, invalid, MOVED/ASK redirected, backend reset, backend silent then closed, connection limit, client disconnect with requests in flight, stop with open connections; TCP: traffic, dial failures, host removal, limit, stop) the equations cx_active==0, cx_total==cx_destroy_total, rq_total==success+failure, per-command total==success+error hold for downstream and upstream, and no gauge wraps below zero at any sample.",
+   text="After each scenario (normal/multi-key, invalid, MOVED/ASK redirected, backend reset, backend silent then closed, connection limit, client disconnect with requests in flight, stop with open idle connections, stop under pipelined partly redirected traffic; TCP: traffic, dial failures, host removal, limit, stop) the equations cx_active==0, cx_total==cx_destroy_total, rq_total==success+failure, per-command total==success+error hold for downstream and upstream, and no gauge wraps below zero at any sample.",
    note="Trusted: quiescence detector (simulated nodes report received==answered; two identical stat dumps >= 50 ms apart); a dump that never stabilises is inconclusive, not a violation.",
    ref="DESIGN.md section 4 C20"),
  "C19": dict(level="exploration", technique="step-relation oracle over prefix-replayed counter snapshots; per-key conservation under concurrent writers/latchers; four report assertions on the collector driven with a virtual clock (also ticking inside one collect) with concurrent readers; HOTKEY reply parsed end to end; -race children with scoped reports",
-   text="Counter: for PRNG access/latch/free sequences on capacities {0,1,2,3,8,50,255} every consecutive pair of tracked-state snapshots obeys the LFU step relation (exact +1, admission, eviction of a lowest-count key, size bound); concurrently each access lands in exactly one latch window. Collector and real HOTKEY reply: never more keys than capacity, no duplicate, non-increasing heat, only accessed keys - after every step and in every concurrent reader sample.",
+   text="Counter: for PRNG access/latch/free sequences on capacities {0,1,2,3,8,50,255} every consecutive pair of tracked-state snapshots obeys the LFU step relation (exact +1, admission, eviction of a lowest-count key, size bound); the same relation on EVERY access sequence up to renaming of keys over <= capacity+1/+2 keys up to length 10-12 (12-14 thorough) for capacities 1-5; concurrently each access lands in exactly one latch window. Collector and real HOTKEY reply: never more keys than capacity, no duplicate, non-increasing heat, only accessed keys - after every step and in every concurrent reader sample; reports handed out earlier read the same after every later step; the end-to-end traffic mixes GET with EVAL / SCAN in every letter case.",
    note="Trusted: prefix replay on a fresh counter observes the tracked state (Latch is destructive); the virtual minute clock hook. Race reports deciding only in proc/redis/hotkey/{counter,collector}.go.",
    ref="DESIGN.md section 4 C19"),
  "C15": dict(level="exploration", technique="step-wise model equation over the public host.Set API (object identity), join-point equation after concurrent histories (-race child, scope host/host.go), hysteresis automaton over a scripted checker driven round by round through the real monitor",
-   text="After every step of PRNG sequences of Add/Remove(fresh and known objects)/ReplaceAll/Mark* on current, removed and stale objects: Healthy() is exactly the healthy members of the preferred tier, address-sorted, duplicate-free; Random() is in it; Exist/Len agree; removed members are marked removed and never reported. The same equation at the join of concurrent writers/markers/readers. Health flips only after >= threshold consecutive contrary results and by threshold+1, any opposite result restarting the count.",
+   text="After every step of PRNG sequences of Add/Remove(fresh and known objects)/ReplaceAll/Mark* on current, removed and stale objects: Healthy() is exactly the healthy members of the preferred tier, address-sorted, duplicate-free; Random() is in it; Exist/Len agree; removed members are marked removed and never reported; the last three lists handed out by Healthy() read the same after every later step. The same equation at the join of concurrent writers/markers/readers. Health flips only after >= threshold consecutive contrary results and by threshold+1, any opposite result restarting the count.",
    note="Assumes objects re-added after removal / marked before ever being members are outside the property. Trusted: the 60-line view oracle in cmd/vcheck/c15.go.",
    ref="DESIGN.md section 4 C15"),
  "C07": dict(level="fault_enumeration", technique="fault-script enumeration (connection loss kinds, restarts, down-at-start, layout changes) x PRNG timing against the real proxy and simulated nodes; legal-error-window oracle, accept-log and redirect-log monitors with a progress-relative deadline",
-   text="For each fault kind a history warm-up -> fault -> requests during -> heal -> 20 grace requests is followed by a verification stream in which every request must succeed (re-tried 3x1 s before it counts), the node's accept log must show a new connection, and after a layout change no request sent after an observed CLUSTER NODES fetch may be redirected.",
+   text="For each fault kind a history warm-up -> fault -> requests during -> heal -> 20 grace requests is followed by a verification stream in which every request must succeed (re-tried 3x1 s before it counts), the node's accept log must show a new connection, and after a layout change no request sent after an observed CLUSTER NODES fetch may be redirected. Refresh-trigger scenarios (first redirection inside the rate-limit window, while a slow CLUSTER NODES reply is in flight, with open migration markers on every master): a fetch newer than the change must follow the first redirection without further traffic, then moved keys are no longer redirected.",
    note="Bounded-progress restatement of 'as soon as reachable' (H=20 requests + 200 ms, retries 3 x 1 s). SYN black-hole connect timeouts cannot be emulated on loopback and are not covered.",
    ref="DESIGN.md section 4 C07"),
  "C11": dict(level="exploration", technique="hostile-input campaign against a monitored proxy child: exit status, canary liveness on another connection, peak-RSS bound per case; backend-side hostile replies per request class from simulated nodes; recover() around the exported parser wrapper in a child",
-   text="~640 (quick) downstream and backend-side hostile inputs by class (length fields, type bytes, truncation at every offset, PRNG mutations, nesting bombs to 6e6 levels, nested maximum-length arrays, malformed MOVED/ASK/CLUSTERDOWN, CLUSTER NODES bodies, SCAN replies, for each of READONLY / CLUSTER NODES / ASKING / SCAN / plain): the proxy must stay alive, keep answering a canary through a healthy node, and stay within a peak-RSS bound derived from input size and declared limits; complete invalid requests must get an error or a close.",
+   text="~770 (quick) downstream and backend-side hostile inputs by class (length fields, every known command with 0-7 arguments, type bytes, truncation at every offset, PRNG mutations, nesting bombs to 6e6 levels, nested maximum-length arrays, malformed MOVED/ASK/CLUSTERDOWN, CLUSTER NODES bodies, SCAN replies, for each of READONLY / CLUSTER NODES / ASKING / SCAN / plain): the proxy must stay alive, keep answering a canary through a healthy node, and stay within a peak-RSS bound derived from input size and declared limits; complete invalid requests must get an error or a close.",
    note="Trusted: input grammar/class list in cmd/vcheck/c11.go; RSS bound formula (64 MiB + 64 x input + declared bulk + 64 B x declared array length). Each input is written to run/C11/case-current.bin before it is sent; reach counters require every request class to have been served hostile bytes.",
    ref="DESIGN.md section 4 C11"),
  "C02": dict(level="fault_enumeration", technique="forced-ordering fault scripts through verif pause points (hook rendezvous: hold the request, inject the fault, release) x fault kind x request class; full-queue script; PRNG fault stress with probabilistic delays; progress-relative deadline + stuck detector (two goroutine dumps) + child exit status",
-   text="{5 pause points} x {backend reset, close, host removed, hosts replaced, client closes} x {simple, MGET child, ASK-redirected}: the held request must still be answered after release (lost = unanswered after 3 s while fresh canaries through the same backends succeed and two goroutine dumps show a session writer in rawRequest.Wait); > 1024 outstanding requests against a node that stopped reading and then dies are all answered; random fault stress on plain and -race builds must leave no connection with an unanswered request and must not kill the process (double completion = close of closed channel).",
+   text="{5 pause points} x {backend reset, close, host removed, hosts replaced, client closes} x {simple, MGET child, ASK-redirected}: the held request must still be answered after release (lost = unanswered after 3 s while fresh canaries through the same backends succeed and two goroutine dumps show a session writer in rawRequest.Wait); > 1024 outstanding requests against a node that stopped reading and then dies are all answered; a forwarded request followed by one the compression filter answers is flushed, also when the backend resets with the filtered request in the writer's hand; random fault stress on plain and -race builds must leave no connection with an unanswered request and must not kill the process (double completion = close of closed channel).",
    note="Trusted: pause-point placement (between critical sections only), the canary/stuck-detector verdict. Orderings not in the script list are only sampled by the stress engine.",
    ref="DESIGN.md section 4 C02"),
  "C17": dict(level="exploration", technique="frame oracle over a unix stream pair (round trip; declared-vs-actual length table; panic capture) and request/acknowledgement/call-log sequence oracle against the real restarter with a recording Instance, dropped-child recovery, hostile-then-valid frames; monitored child",
-   text="Every type x payload length round-trips exactly; truncated frames are rejected, frames with trailing bytes are never read as another message, nothing panics; for all request sequences up to length 3 (4 thorough) over known and unknown types the reply type matches and the Instance call log equals the requested steps once and in order (terminate: reply, then SIGTERM); a child dropped at 7 points never prevents a later full hand-over; malformed frames never trigger a step nor alter later valid frames; two real processes built from cmd/samaritan hand over the admin and service listeners (checked from /proc socket ownership) while an established connection keeps working, and the old process exits 0.",
+   text="Every type x payload length round-trips exactly; truncated frames are rejected, frames with trailing bytes are never read as another message, nothing panics; for all request sequences up to length 3 (4 thorough) over known and unknown types the reply type matches, every step (taking 2 ms) is in the performed-steps log when its acknowledgement arrives, and the Instance call log equals the requested steps once and in order (terminate: reply, then SIGTERM); a child dropped at 7 points never prevents a later full hand-over; malformed frames never trigger a step nor alter later valid frames; two real processes built from cmd/samaritan hand over the admin and service listeners (checked from /proc socket ownership) while an established connection keeps working, and the old process exits 0.",
    note="Trusted: lock-step driver (the protocol is a synchronous RPC on a stream socket); SIGTERM replaced by a recorded call in the in-process part; the smoke test uses the real binary and real signals.",
    ref="DESIGN.md section 4 C17"),
  "C16": dict(level="exploration", technique="server-side set fold vs dependency fold at quiescence over the real subscription client with a scripted stream factory (failures, slow sends); progress-relative deadline + stack-dump stuck detector for calls; retry observation; plain and -race children (scope config/discovery.go)",
-   text="PRNG Subscribe/Unsubscribe histories (more changes than the queue holds while no stream can be established, Sub/Unsub/Sub bursts, slow server batching, scripted factory/send/recv failures): every call returns (else two stack dumps decide deadlock), a stream is re-created after every failure, and once the last call returned the set subscribed on the live stream (subscribe lists minus unsubscribe lists of that stream) equals the dependency set within the deadline.",
+   text="PRNG Subscribe/Unsubscribe histories (more changes than the queue holds while no stream can be established, Sub/Unsub/Sub bursts, slow server batching, scripted factory/send/recv failures): every call returns (else two stack dumps decide deadlock), a stream is re-created after every failure (also one that happens while the client is idle: a new stream must be requested within 6 retry intervals), and once the last call returned the set subscribed on the live stream (subscribe lists minus unsubscribe lists of that stream) equals the dependency set within the deadline.",
    note="Assumes the server applies a message's subscribe list before its unsubscribe list. The real-gRPC path (config.New with a dynamic source) is not built; the client under test is the real svcDiscoveryClient through the verif constructor.",
    ref="DESIGN.md section 4 C16"),
  "C08": dict(level="exploration", technique="final-state comparison of running (recording) processors against the configuration store's own view at sentinel-marked quiescence, over PRNG update histories through the real store and controller; plain and -race children (scope config/config.go, controller/controller.go)",
@@ -71,15 +71,15 @@ CHECKS = {
    note="The store's MarshalJSON view is taken as the configured state; services whose latest config is invalid are judged only on not disturbing others. Recording processors are registered under protocol.MySQL through the public registry.",
    ref="DESIGN.md section 4 C08"),
  "C05": dict(level="exploration", technique="byte-stream equality + EOF-ordering oracle at both ends of real relayed connections (each receiver recomputes the sender's PRNG stream incrementally), over lengths around the 16 KiB pool buffer, chunkings, pacing, back-pressure and close orders; plain and -race SUT (scope proc/tcp/proc.go)",
-   text="For hundreds (thousands in thorough) of connections, 1-128 at a time, each direction's receiver must get exactly the sender's stream (first differing offset reported), see end-of-stream only after the last byte, and the opposite direction must keep flowing after a half-close; on an abrupt close by one side the other must see a prefix then EOF/reset, never foreign bytes (cross-talk through pooled buffers shows as a mismatch).",
-   note="Trusted: the streaming PRNG generator (cut-independent), the 8-byte connection id relayed first. Idle timeouts are left at their default (10 min).",
+   text="For hundreds (thousands in thorough) of connections, 1-128 at a time, each direction's receiver must get exactly the sender's stream (first differing offset reported), see end-of-stream only after the last byte, and the opposite direction must keep flowing after a half-close; on an abrupt close by one side the other must see a prefix then EOF/reset, never foreign bytes (cross-talk through pooled buffers shows as a mismatch). A separate phase uses connect_timeout 300 ms / idle_timeout 30 s and lets one sender pause for 1 s before or in the middle of its stream.",
+   note="Trusted: the streaming PRNG generator (cut-independent), the 8-byte connection id relayed first. Idle timeouts are left at their default (10 min) except in the pausing-peers phase.",
    ref="DESIGN.md section 4 C05"),
  "C06": dict(level="exploration", technique="exact-count oracle for concurrent round-robin selections and recorded-sample oracle for random / least-connection through the verif re-exports (plain and -race children); end-to-end membership / usable-set oracle in settled windows with backend-scripted health probes, removal-closes-connections monitor",
    text="Round robin: n*k selections per goroutine from 1/4/32 goroutines over 1-17 unchanged hosts give every host exactly its share from any start index; random/least-connection always pick a candidate, least-connection never the strictly busier of its two recorded samples, empty list gives nil. End to end under all three policies: in windows where every member backend has served >= 5 probes since the last scripted change, every connection lands on a healthy member of the preferred tier (backups only when no main is healthy), is closed when no host is usable, round robin is exact over the usable hosts, and connections held to a host are closed within 4 s of its removal.",
    note="Settled-window semantics only; bursts racing a change are not judged. Trusted: backends identify themselves and serve the atcp probes themselves.",
    ref="DESIGN.md section 4 C06"),
  "C09": dict(level="fault_enumeration", technique="lifecycle placement enumeration (hook rendezvous at bind / publish / accept, occupied port, connections and requests in flight) x backend behaviour x protocol x action; progress-relative deadline + two-dump stuck detector on Stop / StopListen; post-stop release monitors (port, downstream and upstream connections, goroutine profile); connection-limit monitor",
-   text="Stop and Drain are called immediately after Start, during bind retries, between bind and socket publication, before the accept loop and while serving 0/1/50 connections with requests in flight, against responsive / silent / not-reading / closed backends (and a silent slot refresh) for redis and tcp: the call must return within 6 s (a hang needs two identical goroutine dumps), then nobody serves the port, every downstream and upstream connection is closed within 3 s and no goroutine with a frame in samaritan/proc or samaritan/host remains; after Drain established connections still work; with limit L in {1,3,16} at most L connections are ever served at once and a freed slot is reusable.",
+   text="Stop and Drain are called immediately after Start, during bind retries, between bind and socket publication, before the accept loop, with a backend dial in flight, with the backend writer holding a written request whose reply arrives, with one multi-key request overflowing a backend client's queues, and while serving 0/1/50 connections with requests in flight, against responsive / silent / not-reading / closed backends (and a silent slot refresh) for redis and tcp: the call must return within 6 s (a hang needs two identical goroutine dumps), then nobody serves the port, every downstream and upstream connection is closed within 3 s and no goroutine with a frame in samaritan/proc or samaritan/host remains; after Drain established connections (also one accepted but not yet registered when Drain ran) still work; with limit L in {1,3,16} at most L connections are ever served at once - for sequential arrivals and for 40 (400) bursts of 24-63 connections held before registration and released at the same instant (vhook spin) - and a freed slot is reusable.",
    note="Trusted: pause-point placement; the goroutine-profile filter (tcp-shaker singleton excluded); 'served' is observed at the backend's accept/close log.",
    ref="DESIGN.md section 4 C09"),
  "C04": dict(level="exploration", technique="reference-model equality (sequential) and porcupine linearizability per key (concurrent) with excusal windows, no-leak monitor on every reply, executed-once count of unique write ids in the simulated node log, final key-placement check; scripted step-by-step slot migrations and failovers; plain and -race SUT",
